@@ -28,3 +28,23 @@ def full_name(name):
         slashed = [x for x in c if '/' in x]
         _CACHE[name] = (slashed or c)[0]
     return _CACHE[name]
+
+
+def check_zone_offset(zone, local_fields, offset_seconds):
+    """None when `zone` (a Haystack zone name) has exactly that UTC offset at the instant denoted by the local wall clock
+    and offset; otherwise a short reason.  pytz is the calendar."""
+    import datetime
+    c = candidates(zone)
+    if not c:
+        return 'unknown zone %r' % (zone,)
+    tz = pytz.timezone(full_name(zone))
+    y, mo, d, h, mi, s, us = local_fields
+    try:
+        utc = datetime.datetime(y, mo, d, h, mi, s, us) - datetime.timedelta(seconds=offset_seconds)
+        off = pytz.utc.localize(utc).astimezone(tz).utcoffset()
+    except (OverflowError, ValueError):
+        return None
+    got = off.days * 86400 + off.seconds
+    if got != offset_seconds:
+        return 'zone %s has offset %+d s at that instant, the stamp says %+d s' % (zone, got, offset_seconds)
+    return None
